@@ -7,4 +7,5 @@ git apply "$PATCH" 2>/dev/null || git apply -C1 "$PATCH" 2>/dev/null || patch -p
 cd /verif && bin/vcheck $P --tier $TIER 2>&1 | grep -v "^KNOWN-FINDING" | tail -4
 RC=${PIPESTATUS[0]}
 git -C /repo checkout -- . 
+find /repo/src /repo/tests -name "*.orig" -o -name "*.rej" | xargs -r rm -f
 echo "exit=$RC  (repo restored: $(git -C /repo status --short | wc -l) changes)"
